@@ -139,8 +139,11 @@ func H_deepnest() {
 		vAssertInfo(viol == "", "bounded-recursion:re-entry-at-larger-counter", viol)
 		return
 	}
-	// native: deep nesting must be reported as an error
-	vAssert(err != nil, "deep-nesting-rejected")
+	// native: deep nesting must be reported as an error (flat repetitions without a
+	// native_n parameter only have to terminate)
+	if vHasParam("native_n") {
+		vAssert(err != nil, "deep-nesting-rejected")
+	}
 }
 
 // Re-entry monitor API (symbolic executor only).
